@@ -8,7 +8,7 @@ CONSTANTS Datasets, Profiles, QuickOnly
 VARIABLES in, out, pc
 vars == <<in, out, pc>>
 Init == /\ \/ \E p \in Profiles, n \in Datasets :
-             /\ (QuickOnly /\ p[2] = "current" => n \in {"good", "regimes", "latecool", "levelshift", "inverted", "flatn2", "summerzero"})      \* a default-profile fit takes 10 s
+             /\ (QuickOnly /\ p[2] = "current" => n \in {"good", "regimes", "latecool", "levelshift", "inverted", "flatn2", "summerzero", "vshape"})      \* a default-profile fit takes 10 s
              /\ in = [fam |-> p[1], prof |-> p[2], name |-> n, prior |-> "none"]
            \* the same model OBJECT was fitted on another meter before: every component must be the one a fresh object would get
            \/ \E p \in Profiles, c \in {<<"good", "heatonly">>, <<"coolonly", "good">>, <<"other", "flat">>, <<"regimes", "other">>} :
@@ -22,6 +22,6 @@ Types == {"hdd_tidd_cdd_smooth", "hdd_tidd_cdd", "hdd_tidd_smooth", "tidd_cdd_sm
 TypeTableInjective == \A a, b \in Types : Carries(a) = Carries(b) => a = b
 SmoothIffCarriesK == \A t \in Types : (("hdd_k" \in Carries(t)) \/ ("cdd_k" \in Carries(t))) <=> t \in {"hdd_tidd_cdd_smooth", "hdd_tidd_smooth", "tidd_cdd_smooth"}
 ProfAll == {<<"daily", "legacy">>, <<"billing", "billing">>, <<"daily", "current">>}
-DataQuick == {"good", "other", "regimes", "weekend", "flat", "heatonly", "coolonly", "latecool", "lateheat", "levelshift", "inverted", "flatn1", "flatn2", "flatn3", "flatn4", "summerzero"}
+DataQuick == {"good", "other", "regimes", "weekend", "flat", "heatonly", "coolonly", "latecool", "lateheat", "levelshift", "inverted", "flatn1", "flatn2", "flatn3", "flatn4", "summerzero", "vshape", "vshape2", "vshape3"}
 DataAll == DataQuick \cup {"noisy", "outliers", "short330", "mild", "flatn5", "flatn6", "flatn7", "flatn8"}
 =============================================================================
